@@ -5,7 +5,6 @@
 import CnvVerif.Model.Call
 import CnvVerif.Lemmas.Call
 import CnvVerif.Lemmas.CallReal
-import CnvVerif.Lemmas.SrcAbs
 namespace CnvVerif.C01
 open CnvVerif
 
@@ -94,17 +93,5 @@ example : (callRow { ploidy := 2, purity := some (1/2), hapX := true, female := 
 example : classOf "chr1" (some "grch38") "chrX" 10000 2781479 = .parx ∧
           classOf "chr1" (some "grch38") "chrX" 9999 2781479 = .x ∧
           classOf "chr1" (some "grch38") "chrY" 10000 2781479 = .pary := by decide +kernel
-
-/-! ### tie to the source text (Generated/Exprs.lean is re-translated from /repo on every run) -/
-
-/-- the model's purity inversion (clipped at 0, fix A) IS the expression `_log2_ratio_to_absolute` computes -/
-theorem absolute_formula_is_the_source (r x : Nat) (p t : Rat) :
-    absoluteOf r x (some p) t = Generated.src_log2_ratio_to_absolute (r : Rat) (x : Rat) p t :=
-  Src.absoluteOf_is_source r x p t
-
-/-- … and the pure conversion `n = r·2^v` is `_log2_ratio_to_absolute_pure` -/
-theorem pure_formula_is_the_source (r : Nat) (t : Rat) :
-    absoluteOf r 0 none t = Generated.src_log2_ratio_to_absolute_pure (r : Rat) t :=
-  Src.absolute_pure_is_source r t
 
 end CnvVerif.C01
